@@ -239,6 +239,24 @@ def c16_literal_pairs(rng, count):
     return out
 
 
+def trim_overlap():
+    """delimiters that overlap with themselves, every short record over their alphabet, every trim: what is left
+    after trimming one end may be shorter than the delimiter while the record still ends (or starts) with it"""
+    import itertools
+    out = []
+    for d, alpha in (("--", "-a"), ("aa", "ab"), ("aba", "ab"), ("abab", "ab"), ("é", None)):
+        if alpha is None:
+            recs = ["é", "éé", "aéé", "ééa", "é\xc3".encode("latin-1").decode("latin-1")]
+            recs = [r.encode() for r in recs[:4]] + [b"\xc3\xa9\xc3", b"\xa9\xc3\xa9"]
+        else:
+            recs = ["".join(t).encode() for L in range(1, 7) for t in itertools.product(alpha, repeat=L)]
+        for rec in recs:
+            for t in "lrb":
+                for extra in ([], ["-g"], ["-p"]):
+                    out.append(Case(["-d", d, "-t", t, "-f", "1:"] + extra, rec + b"\n"))
+    return out
+
+
 def regex_lattice(rng):
     """every subset of the options that meet on the regex path, times a few bounds shapes, on records
     with more fields than any bound names (empty fields and runs of matches included)"""
